@@ -112,6 +112,22 @@ theorem c20_zlib_safe (dec : Bytes → Option Bytes) (bs : Bytes) : Safe (Compre
 theorem c20_brotli_safe (dec : Bytes → Option Bytes) (bs : Bytes) : Safe (CompressionTotal.brotliDecodeG dec bs {}) :=
   (CompressionTotal.brotliDecodeG_spec dec bs {}).safe
 
+/-! ## AMD APCB and coreboot file system (follow-up: these families moved to C20) -/
+
+/-- `apcb.ParseAPCBBinaryTokens`: total for every byte string.  "Never `fuel`" is the progress
+    lemma of the three nested walks: every round advances by `SizeOfGroup` / `SizeOfType` ≥ 16,
+    checked for every group whether it holds tokens or not. -/
+theorem c20_apcb_parse_safe (bs : Bytes) : Safe (ApcbTotal.parseG (budget bs.length) bs {}) :=
+  (ApcbTotal.parseG_spec _ bs {} (by unfold budget ApcbTotal.parseKSlope; dsimp only; omega)).safe
+
+/-- `cbfs.NewImage` (flash map, area clipping, record walk, per-type readers): total for every
+    image shorter than 4 GiB (`RecordStart + SubHeaderOffset` is a uint32 sum in Go, a plain sum in
+    the model).  "Never `fuel`": every round of the walk advances by ≥ 16 bytes. -/
+theorem c20_cbfs_newimage_safe (bs : Bytes) (_hl : bs.length < 4294967296) :
+    Safe (CbfsTotal.newImageG (budget bs.length) bs {}) :=
+  (CbfsTotal.newImageG_spec _ bs {}
+    (by unfold budget CbfsTotal.newImageKSlope Fmap.readK Fmap.areaMem; dsimp only; omega)).safe
+
 /-! ## the central statement (DESIGN.md §7-C20), for the entry points modelled so far
 
   Full statement: *every* entry point named by the property (also cbfs, apcb, the AMD
@@ -188,6 +204,28 @@ theorem c20_fmap_readarea_unrepaired_witness :
     Fmap.readAreaG (budget 98) hostileMap (List.replicate 98 0) 0 {} = .error .err := by
   constructor <;> decide
 
+/-- seeded defect c20-2 in the model: the group walk *without* the size check for foreign groups
+    runs out of fuel on a body that starts with a foreign group of SizeOfGroup = 0 -/
+def groupsNoCheckG (body : Bytes) : Nat → Bytes → GoM Unit
+  | 0, _ => outOfFuel
+  | fuel+1, rem =>
+    if rem.length = 0 then pure ()
+    else do
+      let (gh, _) ← binaryReadG rem 16
+      let sg := fieldLE gh 12 4
+      if sg > rem.length then GoM.err
+      else if fieldLE gh 4 2 = 0x3000 ∧ sg < 16 then GoM.err           -- the check, for token groups only
+      else do
+        let rem' ← sliceFromG "remainBytes[groupHeader.SizeOfGroup:]" rem sg
+        groupsNoCheckG body fuel rem'
+
+def foreignZero : Bytes := [0x50, 0x53, 0x50, 0x47, 0x01, 0x17, 0x10, 0, 1, 0, 0, 0, 0, 0, 0, 0]
+
+theorem c20_apcb_unguarded_witness :
+    groupsNoCheckG foreignZero (foreignZero.length + 1) foreignZero {} = .error .fuel ∧
+    ApcbTotal.groupsG (budget 16) foreignZero (foreignZero.length + 1) foreignZero 0 0 {} = .error .err := by
+  constructor <;> decide
+
 /-! ## non-vacuity: the hypotheses are inhabited and the models accept well-formed inputs -/
 
 example : ([] : Bytes).length < FitTotal.two63 := by decide
@@ -255,5 +293,18 @@ example : (match PsbTotal.validateEntryG (budget pspSample.length) [{ id := List
       pspSample {} with
     | .ok (.reach sg sd, _) => some (sg, sd.length)
     | _ => none) = some (List.replicate 8 0x22, 0x100 + 16) := by decide
+
+/-- an APCB blob: a foreign group, then a token group with one boolean type holding two pairs -/
+def apcbSample : Bytes :=
+  ([0x41, 0x50, 0x43, 0x42] ++ leN 2 128 ++ leN 2 0x30 ++ leN 4 (128 + 24 + 48) ++ List.replicate 20 0 ++
+    [0x45, 0x43, 0x42, 0x32] ++ List.replicate 88 0 ++ [0x42, 0x43, 0x42, 0x41]) ++
+  ([0x50, 0x53, 0x50, 0x47] ++ leN 2 0x1701 ++ leN 2 16 ++ leN 4 1 ++ leN 4 24 ++ List.replicate 8 0xEE) ++
+  ([0x54, 0x4f, 0x4b, 0x4e] ++ leN 2 0x3000 ++ leN 2 16 ++ leN 4 1 ++ leN 4 48 ++
+    (leN 2 0x3000 ++ leN 2 0 ++ leN 2 32 ++ List.replicate 10 0 ++ leN 4 7 ++ leN 4 1 ++ leN 4 9 ++ leN 4 0))
+
+set_option maxRecDepth 100000 in
+example : (match ApcbTotal.parseG (budget apcbSample.length) apcbSample {} with
+    | .ok (n, m) => some (n, m.alloc)
+    | .error _ => none) = some (2, 2 * ApcbTotal.tokenMem) := by decide
 
 end Fiano.C20
